@@ -17,7 +17,7 @@ ID = "C15"
 D5 = [(0, 1), (1, 1), (0, None), (1, None), (2, 2)]
 _ROOT = os.path.dirname(os.path.dirname(os.path.abspath(__file__)))
 
-CFG = {"shape": None, "version": "1.0"}
+CFG = {"shape": None, "version": "1.0", "mask": None}
 STATE = {}
 _KNOWN = None
 
@@ -42,7 +42,8 @@ def configure(cfg):
         return
     shape = _detuple(CFG["shape"])
     sch, root, group, parts = S.build(shape, CFG["version"])
-    STATE.update(shape=shape, group=group, parts=parts, n=len(parts), sid=S.shape_id(shape),
+    mask = CFG.get("mask") or list(range(len(parts)))
+    STATE.update(shape=shape, group=group, parts=parts, n=len(parts), sid=S.shape_id(shape), mask=mask,
                  known=known_vectors(CFG["version"], S.shape_id(shape)))
 
 
@@ -54,12 +55,19 @@ def _detuple(x):
     return x
 
 
+def _full(kw):
+    """index vector for all particles: the masked ones from the arguments, the others fixed to (1,1)"""
+    idx = [1] * STATE["n"]
+    for k in STATE["mask"]:
+        idx[k] = pick(kw["i%d" % k], len(D5))
+    return idx
+
+
 def pre_vec(fn, **kw):
     for v in kw.values():
         if not (0 <= v < len(D5)):
             return False
-    idx = tuple(pick(kw["i%d" % k], len(D5)) for k in range(STATE["n"]))
-    return idx not in STATE["known"]          # known-finding region: explicit list of vectors of this shape
+    return tuple(_full(kw)) not in STATE["known"]          # known-finding region: explicit list of vectors of this shape
 
 
 def _verdicts(idx):
@@ -90,8 +98,7 @@ def _oracle(vec):
 
 def h_check(**kw) -> bool:
     # the indices select occurrence classes (finite choice): fix them first, then run the real code
-    idx = [pick(kw["i%d" % k], len(D5)) for k in range(STATE["n"])]
-    got, want = _verdicts(idx)
+    got, want = _verdicts(_full(kw))
     return got == want
 
 
@@ -111,12 +118,12 @@ def known_replay(config):
         if got != want:
             rep += 1
             if ex is None:
-                ex = explain("h_check", {"i%d" % k: v for k, v in enumerate(idx)})
+                ex = explain("h_check", {"i%d" % k: idx[k] for k in STATE["mask"]})
     return {"finding": "C15-check-model-heuristic", "listed": len(listed), "reproduced": rep, "example": ex}
 
 
 def explain(fn, args):
-    idx = [args["i%d" % k] for k in range(STATE["n"])]
+    idx = _full(args)
     vec = [D5[i] for i in idx]
     got, want = _verdicts(idx)
     return "XSD %s model %s : check_model %s, oracle says %s" % (
@@ -165,21 +172,46 @@ def obligations(tier, seed):
         n3 = by_n.get(3, [])
         n4 = by_n.get(4, [])
         n5 = by_n.get(5, [])
-        picks = rnd.sample(n3, min(24, len(n3))) + rnd.sample(n4, min(36, len(n4)))
+        picks = rnd.sample(n3, min(20, len(n3))) + rnd.sample(n4, min(22, len(n4)))
         plan = [(s, v) for k, s in enumerate(picks) for v in (("1.0", "1.1") if k % 3 == 0 else (("1.0",) if k % 3 == 1 else ("1.1",)))]
-        plan += [(s, ("1.0", "1.1")[k % 2]) for k, s in enumerate(rnd.sample(n5, min(8, len(n5))))]
-        to = 150
+        plan += [(s, ("1.0", "1.1")[k % 2]) for k, s in enumerate(rnd.sample(n5, min(2, len(n5))))]
+        to = 400
     else:
         n5 = by_n.get(5, [])
         plan = [(s, v) for s in small for v in ("1.0", "1.1")] + [(s, v) for s in rnd.sample(n5, min(60, len(n5))) for v in ("1.0", "1.1")]
         to = 1500
     out = []
+    c11 = S.catalogue_11()
+    deep = S.catalogue_deep()
+    if tier == "quick":
+        crit = [s for s in c11 if any(t in S.shape_id(s) for t in ("any[##local]", "any[tns]"))]
+        rest = [s for s in c11 if s not in crit]
+        plan += [(s, "1.1") for s in crit + rnd.sample(rest, 6)]
+        dplan = [(s, ("1.0", "1.1")[k % 2]) for k, s in enumerate(rnd.sample(deep, 8))]
+    else:
+        plan += [(s, "1.1") for s in c11]
+        dplan = [(s, v) for s in deep for v in ("1.0", "1.1")]
     for s, v in plan:
         n = len(S.nodes_preorder(s))
         out.append({
             "name": "check/%s/%s" % (v, S.shape_id(s).replace(' ', '')),
             "fn": "h_check", "pre": "pre_vec", "args": [["i%d" % k, "int"] for k in range(n)],
-            "config": {"shape": s, "version": v}, "timeout": to, "twin_timeout": 30,
+            "config": {"shape": s, "version": v, "mask": None}, "timeout": to, "twin_timeout": 30,
             "bound": "%d particles, %d occurrence vectors" % (n, len(D5) ** n),
         })
+    for s, v in dplan:
+        mask = deep_mask(s)
+        out.append({
+            "name": "deep/%s/%s" % (v, S.shape_id(s).replace(' ', '')),
+            "fn": "h_check", "pre": "pre_vec", "args": [["i%d" % k, "int"] for k in mask],
+            "config": {"shape": s, "version": v, "mask": mask}, "timeout": to, "twin_timeout": 30,
+            "bound": "nesting depth 3; occurrences of the %d group particles and the last leaf symbolic (%d vectors), other leaves (1,1)" % (
+                len(mask) - 1, len(D5) ** len(mask)),
+        })
     return out
+
+
+def deep_mask(shape):
+    nodes = S.nodes_preorder(shape)
+    groups = [i for i, n in enumerate(nodes) if n[0] in 'sca']
+    return groups[:3] + [len(nodes) - 1] if len(groups) > 3 else groups + [len(nodes) - 1]
